@@ -61,6 +61,16 @@ def run(ctx):
             ctx.decide(ok, 'R-FLOW', 'D1', f, stores[0] if stores else None, 'value-verbatim',
                        f'{f.qualname}: the stored value is the `{valparam}` parameter itself',
                        detail='the value is converted before assignment (NumPy would cast/broadcast itself)')
+            # the assignment is unconditional: every completion that does not raise has stored the value (a "skip when
+            # equal" shortcut compares with ==, under which -0.0 == 0.0 and 2**53+1 == float(2**53): what NumPy would
+            # store differs from what is there)
+            from ..pathcond import runs_under as _ru
+            for s_ in stores:
+                r_ = _ru(f, s_, lambda t: None)
+                ctx.decide(r_ is True, 'R-POST', 'D1', f, s_, 'store-unconditional',
+                           f'{f.qualname}: every normal completion has performed the assignment',
+                           detail='a path reaches the normal exit without `map[index] = value` (a guard decides on the values '
+                                  'whether to write): NumPy assignment is not applied for some inputs')
             # D4: write gate dominates the store
             GA = GateAnalysis(ctx, ModeGate())
             gates = GA.local_gates(f)
@@ -98,9 +108,22 @@ def run(ctx):
                                   'handle\'s mode instead of the open map, so the documented per-context override raises OSError '
                                   'and nothing is written')
         else:
-            # the value returned is a copy made inside the block (decided by R-ESC below);
-            # additionally the copy is taken from the subscript itself
-            pass
+            # the value returned is a copy made inside the block (decided by R-ESC below).
+            # Reads go through the memory map only: the file object the opener yields next to the map is not used by
+            # __getitem__ — a read through the buffered file object does not see what was assigned through the map
+            # (results then differ inside and outside an open_array() context)
+            fdnames = set()
+            for item in w.items:
+                ov = item.optional_vars
+                if isinstance(ov, ast.Tuple) and len(ov.elts) == 2 and isinstance(ov.elts[1], ast.Name):
+                    fdnames.add(ov.elts[1].id)
+            used = [n for n in own_nodes(f.node) if isinstance(n, ast.Name) and isinstance(n.ctx, ast.Load) and
+                    n.id in fdnames and n.id != '_']
+            ctx.decide(not used, 'R-FLOW', 'D1', f, used[0] if used else None, 'reads-through-map-only',
+                       f'{f.qualname}: the file object yielded by the opener is not used (every read goes through the memory map)',
+                       detail=f'`{used[0].id if used else ""}` (the open data file) is read or handed to a helper: data read through '
+                              f'the buffered file object can be stale with respect to assignments made through the map in the '
+                              f'same context')
     nblocks = esc_obligations(ctx, 'D2')
     ctx.floor('C12 with-blocks on map-yielding managers', nblocks, 10)
     pair_obligations(ctx, 'D3')
